@@ -7,6 +7,7 @@ CONSTANTS
   AllowPtr = FALSE
   AllowConstPtr = FALSE
   AllPerms = TRUE
+  ChainMode = FALSE
   Stepwise = FALSE
 INVARIANTS CodesOK
 CHECK_DEADLOCK FALSE
